@@ -8,6 +8,7 @@ mod gen_exp;
 mod props;
 mod rng;
 mod sx;
+mod text;
 
 use std::io::Write;
 
